@@ -271,6 +271,15 @@ func (idx *IVFIndex) Add(vector VectorNode) error {
 	}
 
 	// Find the nearest centroid (call utility directly since we already hold write lock)
+	// Re-adding an id that is still soft-deleted: purge the tombstoned entry
+	// first. Otherwise the new content would stay hidden behind the old
+	// tombstone and be dropped, together with the old one, by the next Flush.
+	if idx.deletedNodes.Contains(vector.ID()) {
+		if err := idx.flushLocked(); err != nil {
+			return err
+		}
+	}
+
 	nearestCentroidIdx := FindNearestCentroidIndex(vector.Vector(), idx.centroids, idx.distance)
 
 	// Add vector to the corresponding inverted list
@@ -362,6 +371,13 @@ func (idx *IVFIndex) Remove(vector VectorNode) error {
 func (idx *IVFIndex) Flush() error {
 	idx.mu.Lock()
 	defer idx.mu.Unlock()
+
+	return idx.flushLocked()
+}
+
+// flushLocked physically removes all soft-deleted entries.
+// The caller must hold idx.mu for writing.
+func (idx *IVFIndex) flushLocked() error {
 
 	// Quick exit if nothing to flush
 	deletedCount := int(idx.deletedNodes.GetCardinality())
